@@ -31,6 +31,14 @@ class P:
     def rvs(self, *params, size=None, random_state=None):
         return random_state.randint(1, 1000, size=size).astype(float)
 
+    def pdf(self, x):        # (needed by SMC's ModelPrior: support [1, 1000))
+        x = np.asarray(x, dtype=float)
+        return np.where((x >= 1) & (x < 1000), 1.0 / 999, 0.0)
+
+    def logpdf(self, x):
+        with np.errstate(divide="ignore"):
+            return np.log(self.pdf(x))
+
 
 class Sim:
     def __init__(self):
@@ -395,6 +403,44 @@ def check_api(ctx, scs):
     return traces
 
 
+# ------------------------------------------------------------------ extension: SMC over a pool (drift only, see DESIGN 5/C05)
+def check_smc_pool(ctx):
+    import elfi
+    rnd = random.Random(ctx.seed + 77)
+    traces, scs = [], []
+    for k in range(4 if ctx.quick else 30):
+        sc = dict(stored=rnd.choice([["sim"], ["S"], ["sim", "S"], ["d"]]), bs=rnd.choice([1, 2, 3]), n=rnd.choice([2, 3]), seed=rnd.randint(1, 10 ** 6),
+                  thrs=[12.0, 8.0, 6.0][:rnd.randint(2, 3)], pool="output")
+        events = []
+        try:
+            with time_limit(600):
+                pool = elfi.OutputPool(list(sc["stored"]))
+                ver = dict(S=0, d=0)
+
+                def smc(pool_):
+                    m = build(sc, ver)
+                    res = elfi.SMC(m["d"], batch_size=sc["bs"], seed=sc["seed"], pool=pool_).sample(sc["n"], thresholds=sc["thrs"], bar=False)
+                    h = hashlib.sha256()
+                    for p in res.populations:
+                        for kk in sorted(p.outputs):
+                            h.update(np.ascontiguousarray(np.asarray(p.outputs[kk], dtype=float)).tobytes())
+                        h.update(np.ascontiguousarray(p.weights).tobytes() + str(int(p.n_sim)).encode())
+                    return h.hexdigest()[:16]
+                twin = smc(None)
+                for label in ("fill", "rerun"):
+                    del CALLS[:]
+                    events.append(dict(a="run", n="", k=0, raised="", res=smc(pool), twin=twin, held0={}, calls=[], pool={}))
+        except Exception as ex:
+            events.append(dict(a="run", n="", k=0, raised=type(ex).__name__, res="", twin="", held0={}, calls=[], pool={}))
+        traces.append(dict(stored=list(sc["stored"]), events=events))
+        scs.append(sc)
+    verdicts = ctx.validate("Pool_Trace", traces, chunk=100, name="smcpool")
+    for sc, tr, v in zip(scs, traces, verdicts):
+        ctx.case("smc-pool:" + str(sc), nontrivial=True)
+        if v["verdict"] != "ok":
+            ctx.drifted("E:smc-" + v["verdict"][2:], sc, detail=tr["events"][-1])
+
+
 def check_scenarios(ctx, scs):
     if scs and scs[0].get("api"):
         return check_api(ctx, scs)
@@ -442,6 +488,7 @@ PROPERTY NeverOverwrites
 CHECK_DEADLOCK FALSE
 """, expect_actions=["Next"], timeout=900, label="PoolApi (extension)")
     check_api(ctx, api_scenarios(ctx))
+    check_smc_pool(ctx)
     scs = scenarios(ctx)
     traces = check_scenarios(ctx, scs)
     for i in (0, len(scs) // 2):
